@@ -803,7 +803,7 @@ def install(lib, np_):
   def _minimize(cx, fun=None, x0=None, args=None, method=None, jac=None, tol=None, options=None, **kw):
     s = st_of(cx, x0)
     # the objective is exercised once on the generic point (its own obligations are generated there)
-    cx.p.events.append(('minimize', cx.line()))
+    cx.p.events.append(('minimize', dict(fun=fun, x0=x0, args=args, jac=jac, method=method, options=options, line=cx.line())))
     res = new_extobj(cx.p, 'optres', x_dims=[s.shape.size()], x0=x0)
     if isinstance(fun, VFunc):
       argv = list(args.items) if isinstance(args, (VTuple, VList)) else []
